@@ -30,13 +30,7 @@ ASSUMPTIONS = [
 STATE = ['batch_stats', 'counters']
 
 
-class Cell(nn.Module):
-  """(carry, x[, b]) -> (carry, (y, key_data)) around a DSL program."""
-  spec: Any = None
-  dim: int = 2
-
-  @nn.compact
-  def __call__(self, c, x, b=None):
+def _cell_body(self, c, x, b=None):
     h = c + x
     if b is not None:
       h = h + b
@@ -50,13 +44,17 @@ class Cell(nn.Module):
     return h, (h * 2.0 + 1.0, kd, jnp.outer(h, h) if h.ndim == 1 else h[..., None])
 
 
-class VCell(nn.Module):
-  """x -> (y, key_data) for vmap."""
+class Cell(nn.Module):
+  """(carry, x[, b]) -> (carry, (y, key_data)) around a DSL program."""
   spec: Any = None
   dim: int = 2
 
   @nn.compact
-  def __call__(self, x, b=None):
+  def __call__(self, c, x, b=None):
+    return _cell_body(self, c, x, b)
+
+
+def _vcell_body(self, x, b=None):
     h = x if b is None else x + b
     inner = L.make_module(L.thaw(self.spec), self.dim, name='inner')
     h = inner(h)
@@ -65,6 +63,48 @@ class VCell(nn.Module):
     else:
       kd = jnp.zeros((2,), jnp.uint32)
     return h * 2.0 + 1.0, kd
+
+
+class VCell(nn.Module):
+  """x -> (y, key_data) for vmap."""
+  spec: Any = None
+  dim: int = 2
+
+  @nn.compact
+  def __call__(self, x, b=None):
+    return _vcell_body(self, x, b)
+
+
+_METHOD_FORMS = {}
+
+
+def method_form(transform, body, kw):
+  """The same cell with the transform applied as a *method decorator*
+  (functools.partial(nn.scan, ...) above @nn.compact) instead of to the
+  class."""
+  import functools
+  key = (transform.__name__, body.__name__, repr(sorted(kw.items(), key=str)))
+  if key not in _METHOD_FORMS:
+    if body is _cell_body:
+      class MCell(nn.Module):
+        spec: Any = None
+        dim: int = 2
+
+        @functools.partial(transform, **kw)
+        @nn.compact
+        def __call__(self, c, x, b=None):
+          return _cell_body(self, c, x, b)
+    else:
+      class MCell(nn.Module):
+        spec: Any = None
+        dim: int = 2
+
+        @functools.partial(transform, **kw)
+        @nn.compact
+        def __call__(self, x, b=None):
+          return _vcell_body(self, x, b)
+    _METHOD_FORMS[key] = MCell
+  return _METHOD_FORMS[key]
 
 
 def body_prog():
@@ -144,6 +184,10 @@ def scan_case():
       'split_params': st.booleans(), 'split_dropout': st.booleans(),
       'mutable': st.lists(st.sampled_from(STATE), max_size=2, unique=True),
       'seed': st.integers(0, 2**16), 'remat_scan': st.just(False),
+      # nn.scan(Cell, ...) or @functools.partial(nn.scan, ...) on __call__
+      'form': st.sampled_from(['class', 'class', 'method']),
+      # the documented fast path that skips the broadcast-constancy trace
+      'cci': st.sampled_from([True, True, False]),
   })
 
 
@@ -171,8 +215,8 @@ def build_scan(case, cols):
 @clause('scan_vs_loop', strategy=scan_case, quick=160, thorough=6000,
         quick_shards=16, thorough_shards=16, shrink=False,
         rule='generated loop-body programs (Dense/param/counter/running stat) '
-        'x role of each collection (axis 0/1, broadcast, carry) x length 1-4 x '
-        'reverse x unroll {1,2,>length} x in/out axis 0/1 x broadcast input x '
+        'x transform applied to the class or as a method decorator x role of each collection (axis 0/1, broadcast, carry) x length 1-4 x '
+        'reverse x unroll {1,2,>length} x check_constancy_invariants on/off x in/out axis 0/1 x broadcast input x '
         'split_rngs per stream x outer mutable filter; init: axis collections '
         'have size `length` at the declared position, split params differ per '
         'slice and unsplit are identical; apply equals a Python loop over '
@@ -196,12 +240,20 @@ def scan_vs_loop(case, ctx):
            'dropout': case['split_dropout']}
   in_axes = (case['in_axis'], nn.broadcast) if b is not None else \
       case['in_axis']
+  form = case.get('form', 'class')
   with sut('nn.scan'):
-    SC = nn.scan(Cell, variable_axes=variable_axes,
-                 variable_broadcast=broadcast, variable_carry=carry,
-                 split_rngs=split, in_axes=in_axes,
-                 out_axes=case['out_axis'], length=n, reverse=case['reverse'],
-                 unroll=case['unroll'])
+    skw = dict(variable_axes=variable_axes,
+               variable_broadcast=broadcast, variable_carry=carry,
+               split_rngs=split, in_axes=in_axes,
+               out_axes=case['out_axis'], length=n, reverse=case['reverse'],
+               unroll=case['unroll'])
+    # documented: only with the constancy check can broadcast collections be
+    # produced (initialised) inside the loop
+    cci = case.get('cci', True) or bool(broadcast)
+    if not cci:
+      skw['check_constancy_invariants'] = False
+    SC = nn.scan(Cell, **skw) if form == 'class' else method_form(
+        nn.scan, _cell_body, skw)
     scanned = SC(spec=spec, dim=D)
   plain = Cell(spec=spec, dim=D)
   args = (jnp.asarray(c0), jnp.asarray(xs)) + (
@@ -340,7 +392,9 @@ def scan_vs_loop(case, ctx):
       require(len(rows) == 1, lambda: f'dropout stream is not split but '
               f'{len(rows)} distinct keys were seen')
   used_roles = {roles[c] for c in cols}
-  ctx.note(labels=[f'n{n}', 'rev' if case['reverse'] else 'fwd'] +
+  ctx.note(labels=[f'n{n}', 'rev' if case['reverse'] else 'fwd',
+                   f'form-{form}'] + ([] if cci else
+                                      ['no-constancy-check']) +
            sorted(f'{c}:{roles[c]}' for c in cols),
            nontrivial=(len(used_roles) >= 2 and n >= 2) or case['reverse']
            or any(a != 0 for a in variable_axes.values())
@@ -550,12 +604,14 @@ def vmap_case():
       'split_params': st.booleans(), 'split_dropout': st.booleans(),
       'mutable': st.lists(st.sampled_from(STATE), max_size=2, unique=True),
       'seed': st.integers(0, 2**16),
+      'form': st.sampled_from(['class', 'class', 'method']),
   })
 
 
 @clause('vmap_vs_per_index', strategy=vmap_case, quick=160, thorough=6000,
         quick_shards=16, thorough_shards=16, shrink=False,
-        rule='generated mapped programs x axis (0/1/None) of params x axis '
+        rule='generated mapped programs x transform applied to the class or '
+        'as a method decorator x axis (0/1/None) of params x axis '
         '(0/None) of state collections x batch size 1-4 x in/out axes 0/1 x '
         'unmapped input x split_rngs: init shapes and split/unsplit '
         'initialisation; apply equals calling the unlifted module once per '
@@ -583,9 +639,12 @@ def vmap_vs_per_index(case, ctx):
   split = {'params': case['split_params'] and axes.get('params') is not None,
            'dropout': case['split_dropout']}
   in_axes = (case['in_axis'], None) if b is not None else case['in_axis']
+  form = case.get('form', 'class')
   with sut('nn.vmap'):
-    VM = nn.vmap(VCell, variable_axes=axes, split_rngs=split, in_axes=in_axes,
-                 out_axes=case['out_axis'], axis_size=n)
+    vkw = dict(variable_axes=axes, split_rngs=split, in_axes=in_axes,
+               out_axes=case['out_axis'], axis_size=n)
+    VM = nn.vmap(VCell, **vkw) if form == 'class' else method_form(
+        nn.vmap, _vcell_body, vkw)
     mapped = VM(spec=spec, dim=D)
   plain = VCell(spec=spec, dim=D)
   args = (jnp.asarray(xs),) + ((jnp.asarray(b),) if b is not None else ())
@@ -652,7 +711,8 @@ def vmap_vs_per_index(case, ctx):
     require((len(rows) == n) if split['dropout'] else (len(rows) == 1),
             lambda: f'dropout split={split["dropout"]} but {len(rows)} '
             f'distinct keys over {n} indices')
-  ctx.note(labels=[f'n{n}'] + sorted(f'{c}:{a}' for c, a in axes.items()),
+  ctx.note(labels=[f'n{n}', f'form-{form}'] + sorted(f'{c}:{a}' for c, a in
+                                                   axes.items()),
            nontrivial=(len(set(axes.values())) >= 2 and n >= 2)
            or any(a not in (0, None) for a in axes.values()))
 
